@@ -30,7 +30,7 @@ import (
 var (
 	reQuoted = regexp.MustCompile(`"[^"]*"|'[^']*'`)
 	reDigits = regexp.MustCompile(`[0-9]+`)
-	reIDs    = regexp.MustCompile(`s[0-9]{4}[joc][0-9]`)
+	reIDs    = regexp.MustCompile(`s[0-9]{4}[joc][0-9a-z]t?x?`)
 )
 
 func normDiag(s string) string {
@@ -99,7 +99,7 @@ func (j *judge) fail(u *bldrun.LUnit, b ast.Builder, clause, diag, target, what 
 		Size:    c.Size(),
 		Parents: c.Parents(),
 		What:    fmt.Sprintf("%s builder %s of %s: %s: %s", u.Lang, b.Name, c.Witness(), strings.Join(texts, " . "), what),
-		Detail: map[string]any{"format": c.Format, "variant": c.Variant, "schema": c.Schema.String(), "language": u.Lang,
+		Detail: map[string]any{"format": c.Format, "variant": c.Variant, "twin": c.Twin, "schema": c.Schema.String(), "language": u.Lang,
 			"builder": b.Name, "sequence": seq, "calls": texts, "input": c.Unit.Files, "veneers": c.Unit.VeneersYAML},
 	})
 }
@@ -128,8 +128,8 @@ func (j *judge) check(u *bldrun.LUnit, b ast.Builder, def any, calls []call, cla
 	j.trans++
 	j.mu.Unlock()
 	target := last.Target
-	if u.C.Variant != "" {
-		target += " [" + u.C.Variant + "]"
+	if u.C.Tag() != "" {
+		target += " [" + u.C.Tag() + "]"
 	}
 	switch {
 	case out.Died:
@@ -228,7 +228,7 @@ func (j *judge) check(u *bldrun.LUnit, b ast.Builder, def any, calls []call, cla
 	return ok
 }
 
-const maxValuesPerArg = 40
+const maxValuesPerArg = 64
 
 func (j *judge) builder(u *bldrun.LUnit, b ast.Builder, thorough bool) {
 	if _, ok := u.BuilderTerm(b); !ok {
@@ -274,8 +274,8 @@ func (j *judge) builder(u *bldrun.LUnit, b ast.Builder, thorough bool) {
 			pth := opt.Assignments[0].Path
 			if last := pth[len(pth)-1]; last.Index == nil && last.Identifier != opt.Name {
 				tc := bldrun.TypeClass(u, args[0].Term, 0)
-				if u.C.Variant != "" {
-					tc += " [" + u.C.Variant + "]"
+				if u.C.Tag() != "" {
+					tc += " [" + u.C.Tag() + "]"
 				}
 				j.fail(u, b, "option does not target the member it is named after", "", tc,
 					fmt.Sprintf("option %s assigns to %s", opt.Name, pth.String()), []call{{Text: opt.Name + "(…)"}})
@@ -294,6 +294,7 @@ func (j *judge) builder(u *bldrun.LUnit, b ast.Builder, thorough bool) {
 				if len(vals) > maxValuesPerArg {
 					vals = vals[:maxValuesPerArg]
 					j.e.Bump("alphabet-capped")
+					j.note("alphabet capped", u.C.Witness()+" "+b.Name+"."+opt.Name+fmt.Sprintf(" (%d values)", len(u.C.Schema.Values(a.Term, 2))))
 				}
 				for _, v := range vals {
 					alpha[i] = append(alpha[i], v)
@@ -443,7 +444,7 @@ func main() {
 	r := vx.Start("C09")
 	genrun.MaybeServe()
 	r.PerKindSmallest = true
-	opts := bldrun.Opts{Name: "c09", Thorough: r.Thorough(), Python: true}
+	opts := bldrun.Opts{Name: "c09", Thorough: r.Thorough(), Python: true, Twins: true}
 	if r.Replay != "" {
 		_, witness, _ := r.ReplayFile()
 		opts.Only = witness
@@ -517,7 +518,7 @@ func main() {
 				eng.Bump("python: builder IR not loadable")
 			default:
 				u := eng.Unit(c, "python")
-				if resp, died := py.Do(map[string]any{"op": "default", "unit": c.Unit.ID, "class": "Root"}); died || resp["import_error"] != nil {
+				if resp, died := py.Do(map[string]any{"op": "default", "unit": c.Unit.ID, "pkg": c.PkgName(), "class": "Root"}); died || resp["import_error"] != nil {
 					eng.Bump("python: blocked_by=C02")
 					j.note("python: blocked_by=C02 (module does not import)", c.Witness()+": "+fmt.Sprint(resp["import_error"]))
 					return
